@@ -19,6 +19,8 @@ Event(ev) ==
                                \* the callback fires at most once, and only after the last consumer has been called
                                /\ ev.fires <= 1 /\ (ev.fired => ev.firedAfter = K)
       [] ev.ev = "ConsumerDone" -> ConsumerDone(ev.e, ev.c)
+      [] ev.ev = "ConsumerFail" -> ConsumerFail(ev.e, ev.c)
+      [] ev.ev = "EmitRaised" -> EmitRaised(ev.e)
       [] ev.ev = "EmitDone" -> EmitDone(ev.e)
       [] ev.ev = "ObsRc" -> (\A e \in 1 .. Len(ev.rc) : rc[e] = ev.rc[e]) /\ Same
       [] ev.ev = "End" -> Same
